@@ -648,6 +648,10 @@ func validate(caller string, start, limit uint64, blocks []eth.Block) error {
 // 32 byte hash (from its header or from a previously attached item)
 // is named by an item with a different block hash.
 func checkHash(caller string, b *eth.Block, h []byte) error {
+	if len(h) != 32 {
+		const tag = "%s: rpc response contains invalid data. block: %d missing block hash"
+		return fmt.Errorf(tag, caller, b.Header.Number)
+	}
 	if len(b.Header.Hash) == 32 && !bytes.Equal(b.Header.Hash, h) {
 		const tag = "%s: rpc response contains invalid data. block: %d hash: %.4x got: %.4x"
 		return fmt.Errorf(tag, caller, b.Header.Number, []byte(b.Header.Hash), h)
@@ -762,6 +766,9 @@ func (c *Client) receipts(ctx context.Context, url string, bm blockmap, start, l
 			if n := uint64(resps[i].Result[j].BlockNum); n != blockNum {
 				const tag = "eth_getBlockReceipts receipts of different blocks in one response. num=%d first=%d"
 				return fmt.Errorf(tag, n, blockNum)
+			}
+			if err := checkHash("eth_getBlockReceipts", b, resps[i].Result[j].BlockHash); err != nil {
+				return err
 			}
 		}
 		for j := range resps[i].Result {
@@ -892,6 +899,12 @@ func (c *Client) logs(ctx context.Context, url string, filter *glf.Filter, bm bl
 			return err
 		}
 		b.Header.Hash.Write(logs[0].BlockHash)
+		for i := range logs {
+			if err := checkHash("eth_getLogs", b, logs[i].BlockHash); err != nil {
+				b.Unlock()
+				return err
+			}
+		}
 		tx := b.Tx(k.b)
 		tx.PrecompHash.Write(logs[0].TxHash)
 		for i := range logs {
@@ -962,6 +975,11 @@ func (c *Client) traces(ctx context.Context, url string, bm blockmap, start, lim
 			return err
 		}
 		block.Header.Hash.Write(res.Result[0].BlockHash)
+		for i := range res.Result {
+			if err := checkHash("trace_block", block, res.Result[i].BlockHash); err != nil {
+				return err
+			}
+		}
 
 		var tracesByTx = map[key][]traceBlockResult{}
 		for i := range res.Result {
